@@ -79,7 +79,7 @@ extern int vf_vis_t;               /* trace marker: thread performing a visible 
 _Bool vf_preempt(int k);
 _Bool vf_slot_begin(int k);
 #define VF_SEQUENTIAL 1
-#define VF_ATOMIC_BEGIN(site) (vf_vis_t = vf_tid)
+#define VF_ATOMIC_BEGIN(site) VF_VIS(vf_tid)
 #define VF_ATOMIC_END(site) ((void)0)
 #define VF_NOBLOCK() __CPROVER_assert(!vf_blk, "rt: blocking call inside a function that was not inlined into its thread root")
 #endif
@@ -110,7 +110,7 @@ void vf_race_init(void);
 #define VF_ATOMIC_LOAD(site, p, o) vf_race_load((void *)(p), (o))
 #define VF_ATOMIC_STORE(site, p, o) vf_race_store((void *)(p), (o))
 #define VF_ATOMIC_RMW(site, p, o) vf_race_rmw((void *)(p), (o))
-#define VF_FENCE(site, o) (vf_vis_t = vf_tid, vf_race_fence(o))
+#define VF_FENCE(site, o) (VF_VIS(vf_tid), vf_race_fence(o))
 #endif
 #if defined(VF_SEQ) && defined(VF_RACE)
 #define VF_RACE_SPAWN(k) vf_race_spawn(k)
@@ -125,7 +125,7 @@ void vf_race_read(void *p);
 #define VF_ATOMIC_RMW(site, p, o) ((void)0)
 #ifdef VF_SEQ
 /* a fence is a visible operation too: the native replay yields before it, so it needs a schedule entry */
-#define VF_FENCE(site, o) (vf_vis_t = vf_tid)
+#define VF_FENCE(site, o) VF_VIS(vf_tid)
 #else
 #define VF_FENCE(site, o) ((void)0)
 #endif
@@ -137,10 +137,24 @@ void vf_race_read(void *p);
 #define VF_CAS_SPURIOUS_FAIL(site) 0
 #endif
 
+/* Trace runs (-DVF_TRACE_RUN): a counterexample trace is wanted for the native replay.  To be able to
+ * extract it from a SLICED formula (the unsliced one can be orders of magnitude bigger), every
+ * logged input and every schedule marker feeds a running sum that every harness check mentions, so
+ * the slicer keeps those assignments; the extra disjunct never hides a failure (the solver is free to
+ * make the sum differ from the constant). */
+extern uint64_t vf_trace_sum;
+#ifdef VF_TRACE_RUN
+#define VF_TRACE_KEEP(v) (vf_trace_sum += (uint64_t)(v) + 1)
+#define VF_TRACE_DISJ || (vf_trace_sum == 0x5bd1e9955bd1e995ULL)
+#else
+#define VF_TRACE_KEEP(v) ((void)0)
+#define VF_TRACE_DISJ
+#endif
+#define VF_VIS(x) (vf_vis_t = (x), VF_TRACE_KEEP(vf_vis_t))
 #ifdef VF_WITNESS
 #define VF_CHECK(c, label) ((void)(c))
 #else
-#define VF_CHECK(c, label) __CPROVER_assert((c), "check: " label)
+#define VF_CHECK(c, label) __CPROVER_assert((c) VF_TRACE_DISJ, "check: " label)
 #endif
 #ifdef VF_WITNESS
 #define VF_REACH(label) __CPROVER_assert(0, "reach: " label)
